@@ -327,13 +327,16 @@ static void ref_run(Json& js, vh::Rng& rng) {
                 w[i] = w[i] * (LD)leak + (LD)mu * e * std::conj(u[i]) / norm;
             }
         }
-        const auto c = f.coeffs();   // c[0] weighs the newest sample
-        LD wmax = 1e-300L;
-        for (int i = 0; i < len; ++i) {
-            wmax = std::max<LD>(wmax, std::abs(w[i]));
-        }
-        for (int i = 0; i < len; ++i) {
-            worst_w = std::max(worst_w, (double)(std::abs(LC(Tr<T>::re(c[i]), Tr<T>::im(c[i])) - w[i]) / wmax));
+        // the coefficients are read after some frames only (reading them must not be what keeps them current), always at the end
+        if (rng.coin() || done + fl >= N) {
+            const auto c = f.coeffs();   // c[0] weighs the newest sample
+            LD wmax = 1e-300L;
+            for (int i = 0; i < len; ++i) {
+                wmax = std::max<LD>(wmax, std::abs(w[i]));
+            }
+            for (int i = 0; i < len; ++i) {
+                worst_w = std::max(worst_w, (double)(std::abs(LC(Tr<T>::re(c[i]), Tr<T>::im(c[i])) - w[i]) / wmax));
+            }
         }
         worst_y = std::max(worst_y, fy / (double)std::max<LD>(ymax, scale));
         done += fl;
